@@ -343,19 +343,119 @@ def permsAlg : Alg :=
     permsEncrypted := toy.aesEnc [] (permsBlock (pValue PERM_ALL % 4294967296) true [1, 2, 3, 4]) }
 example : errOf (permsAlg.validatePerms toy []) = none := by decide +kernel
 
-/-! Algorithms 8 and 9 (after /repo 422f3cc): model = spec, given that the model's Algorithm-2.B
-parameter is the spec's Algorithm 2.B -/
+/-! ## Algorithm 2.B as coded = Algorithm 2.B of the standard; Algorithms 8, 9 and 2.A -/
 
-theorem computeU6O6_eq_alg89 (P : Prims) (S : SPrims) (haesE : S.aesEnc = P.aesEnc) (hsha : S.sha256 = P.sha256)
-    (h2b : ∀ pw s u, P.hash2b pw s u = alg2B S pw s u) (a : Alg) (key pw salts : Bytes) (hk : key.length = 32) :
+/-- what links the primitives of the model to those of the spec in the R5/R6 theorems -/
+structure SamePrims (P : Prims) (S : SPrims) : Prop where
+  sha256 : S.sha256 = P.sha256
+  sha384 : S.sha384 = P.sha384
+  sha512 : S.sha512 = P.sha512
+  aesEnc : S.aesEnc = P.aesEnc
+  aesDec : S.aesDec = P.aesDec
+
+/-- the code adds the first 16 bytes of E as `u32`; the standard reads them as a big-endian integer:
+the same modulo 3 (256 ≡ 1), for every byte string -/
+theorem sum_mod3_eq_be_mod3 (l : Bytes) (a b : Nat) (h : a % 3 = b % 3) :
+    (l.foldl (fun (acc : Nat) (x : UInt8) => acc + x.toNat) a) % 3
+      = (l.foldl (fun (acc : Nat) (x : UInt8) => acc * 256 + x.toNat) b) % 3 := by
+  induction l generalizing a b with
+  | nil => simpa using h
+  | cons x rest ih => simp only [List.foldl_cons]; apply ih; omega
+
+theorem repBytes_eq (n : Nat) (b : Bytes) : repBytes n b = repeatBytes n b := by
+  induction n with
+  | zero => rfl
+  | succ n ih => simp [repBytes, repeatBytes, ih]
+
+/-- the loop of `compute_hash` as coded = the loop of Algorithm 2.B, round for round -/
+theorem hash2BLoop_eq (P : Prims) (S : SPrims) (hp : SamePrims P S) (pw udata : Bytes) (left round : Nat) (k : Bytes) :
+    hash2BLoop P pw udata left round k = alg2BLoop S pw udata left round k := by
+  induction left generalizing round k with
+  | zero => rfl
+  | succ left ih =>
+    have hm := sum_mod3_eq_be_mod3
+      ((cbcE (S.aesEnc (k.take 16)) ((repeatBytes 64 (pw ++ k ++ udata)).length / 16) ((k.drop 16).take 16)
+        (repeatBytes 64 (pw ++ k ++ udata))).take 16) 0 0 rfl
+    simp only [hash2BLoop, alg2BLoop, hash2BRound, cbcEnc, repBytes_eq, ← cbcE_eq, ← hp.aesEnc, hm,
+      ← hp.sha256, ← hp.sha384, ← hp.sha512, ih]
+
+/-- model_eq_spec, Algorithm 2.B: `compute_hash` as coded (revision 6) = Algorithm 2.B, for every
+password, salt and user-key string -/
+theorem hash2B_eq_alg2B (P : Prims) (S : SPrims) (hp : SamePrims P S) (pw salt udata : Bytes) :
+    hash2B P pw salt udata = alg2B S pw salt udata := by
+  simp [hash2B, alg2B, hash2BLoop_eq P S hp, hp.sha256]
+
+/-- the unbounded Rust loop `for round in 1..` is modelled with 287 available rounds; they are never
+exhausted: any larger supply gives the same result (the last byte of E is at most 255 = 287 − 32). -/
+theorem hash2BLoop_stable (P : Prims) (pw udata : Bytes) (left m round : Nat) (k : Bytes)
+    (h1 : 1 ≤ left) (h2 : 288 ≤ round + left) :
+    hash2BLoop P pw udata (left + m) round k = hash2BLoop P pw udata left round k := by
+  induction left generalizing round k with
+  | zero => omega
+  | succ l ih =>
+    have hlast : (hash2BRound P pw udata k).2 ≤ 255 := by
+      simp only [hash2BRound]
+      have := UInt8.toNat_lt ((cbcEnc (P.aesEnc (k.take 16)) ((k.drop 16).take 16) (repBytes 64 (pw ++ k ++ udata))).getLast?.getD 0)
+      omega
+    have e : l + 1 + m = (l + m) + 1 := by omega
+    rw [e]
+    simp only [hash2BLoop]
+    by_cases hl : l = 0
+    · subst hl
+      have hs : (decide (round ≥ 64) && decide ((hash2BRound P pw udata k).2 ≤ round - 32)) = true := by
+        simp; omega
+      simp [hs]
+    · split
+      · rfl
+      · exact ih (round + 1) _ (by omega) (by omega)
+
+theorem hash2B_any_bound (P : Prims) (pw salt udata : Bytes) (m : Nat) :
+    (hash2BLoop P pw udata (287 + m) 1 (P.sha256 (pw ++ salt ++ udata))).take 32 = hash2B P pw salt udata := by
+  unfold hash2B; rw [hash2BLoop_stable P pw udata 287 m 1 _ (by omega) (by omega)]
+
+theorem hash_eq_hashR (P : Prims) (S : SPrims) (hp : SamePrims P S) (a : Alg) (x s u : Bytes) :
+    a.hash P x s u = hashR S a.revision x s u := by
+  simp [Alg.hash, hashR, hp.sha256, hash2B_eq_alg2B P S hp]
+
+/-- model_eq_spec, Algorithms 8 and 9: U/UE and O/OE as coded = the standard's, for every password,
+key and salts (no hypothesis on the hash any more: Algorithm 2.B is concrete on both sides) -/
+theorem computeU6O6_eq_alg89 (P : Prims) (S : SPrims) (hp : SamePrims P S) (a : Alg) (key pw salts : Bytes)
+    (hk : key.length = 32) :
     a.computeU6 P key pw salts = alg8 S a.revision pw key salts ∧
     a.computeO6 P key pw salts = alg9 S a.revision pw key salts a.userValue := by
-  have hh : ∀ x s u, a.hash P x s u = hashR S a.revision x s u := by
-    intro x s u; simp [Alg.hash, hashR, hsha, h2b]
+  have hh := hash_eq_hashR P S hp a
   have e127 : R6_PW_MAX = 127 := by decide
   have hc : ∀ k, cbc0Enc P k key = cbcE (S.aesEnc k) 2 zeroIV key := by
-    intro k; simp [cbc0Enc, cbcEnc, hk, cbcE_eq, zeroIV, haesE]
+    intro k; simp [cbc0Enc, cbcEnc, hk, cbcE_eq, zeroIV, hp.aesEnc]
   simp [Alg.computeU6, Alg.computeO6, alg8, alg9, hh, hc, trunc127, trunc, slice, e127]
+
+/-- model_eq_spec, Algorithm 2.A (with 11 and 12): `compute_file_encryption_key_r6` as coded retrieves
+exactly the key of Algorithm 2.A — owner test first (validation salt, 48-byte U), OE decrypted with the
+hash over the owner key salt; otherwise user test, UE decrypted with the hash over the user key salt;
+AES-256-CBC, zero IV, no padding.  On the user branch the code additionally runs its Algorithm-13
+check (`validate_permissions`) on the key; the owner branch skips it. -/
+theorem fileKeyR6_eq_alg2A (P : Prims) (S : SPrims) (hp : SamePrims P S) (a : Alg) (pw : Bytes)
+    (hu : a.userValue.length = 48) (hoe : a.ownerEncrypted.length = 32) (hue : a.userEncrypted.length = 32) :
+    a.fileKeyR6 P pw =
+      match alg2A S a.revision a.ownerValue a.userValue a.ownerEncrypted a.userEncrypted pw with
+      | none => .error .incorrectPassword
+      | some k =>
+        if hashR S a.revision (trunc pw) ((a.ownerValue.drop 32).take 8) a.userValue = a.ownerValue.take 32 then .ok k
+        else match a.validatePerms P k with
+          | .error e => .error e
+          | .ok () => .ok k := by
+  have hh := hash_eq_hashR P S hp a
+  have e127 : R6_PW_MAX = 127 := by decide
+  have hu48 : a.userValue.take 48 = a.userValue := List.take_of_length_le (by omega)
+  have hc : ∀ k d, d.length = 32 → cbc0Dec P k d = cbcD (S.aesDec k) 2 zeroIV d := by
+    intro k d hd; simp [cbc0Dec, cbcDec, hd, cbcD_eq, zeroIV, hp.aesDec]
+  unfold Alg.fileKeyR6 alg2A
+  simp only [hh, hc _ _ hoe, hc _ _ hue, trunc127, trunc, slice, e127, hu48]
+  split <;> rename_i h1
+  · simp [h1]
+  · split <;> rename_i h2
+    · simp only [h1, h2, ↓reduceIte]; rfl
+    · simp [h1, h2]
 
 /-- F-C06-f: Algorithm 2 is fed `p_value(from_bits_truncate(P))`, not the stored P: for the
 (non-conforming but common) P = −1 the code hashes FFFFFFFC instead of FFFFFFFF. -/
